@@ -8,83 +8,81 @@ Ltac Zify.zify_post_hook ::= Z.to_euclidean_division_equations.
 Lemma closing_at_T0_true : closing_at_T0 = true.  Proof. reflexivity. Qed.
 Lemma srv_present_true : srv_present = true.      Proof. reflexivity. Qed.
 Lemma phases_two : N.to_nat shutdown_phases = 2%nat. Proof. reflexivity. Qed.
-Lemma drops_true : drops_data_when_closing = true. Proof. reflexivity. Qed.
+Lemma drops_false : drops_data_when_closing = false. Proof. reflexivity. Qed.
+Lemma closes_idle_true : close_closes_idle = true. Proof. reflexivity. Qed.
+Lemma no_wait_true : nonpositive_timeout_no_wait = true. Proof. reflexivity. Qed.
 
 Lemma ceil1000_bounds w : w <= ceil1000 w < w + 1000.
 Proof. unfold ceil1000. lia. Qed.
 
-Lemma deadline_bounds c now : 0 < t_ms c ->
-  exists d, deadline c now = Some d /\ now + t_ms c <= d < now + t_ms c + 1000 /\
-            (t_ms c <= 5000 -> d = now + t_ms c).
+(* one wait lasts max(0, t), plus < 1 s of rounding when t > 5 s *)
+Lemma deadline_bounds c now :
+  exists d, deadline c now = Some d /\ now + Z.max 0 (t_ms c) <= d < now + Z.max 0 (t_ms c) + 1000 /\
+            (t_ms c <= 5000 -> d = now + Z.max 0 (t_ms c)).
 Proof.
-  intros Ht. unfold deadline, ceil_threshold_ms.
-  destruct (t_ms c <=? 0) eqn:E0; [lia|].
-  destruct (5000 <? t_ms c) eqn:E1.
-  - eexists; split; [reflexivity|]. pose proof (ceil1000_bounds (abs0 c + now + t_ms c)). split; lia.
-  - eexists; split; [reflexivity|]. split; lia.
-Qed.
-
-Lemma deadline_none c now : t_ms c <= 0 -> deadline c now = None.
-Proof. intros Ht. unfold deadline. destruct (t_ms c <=? 0) eqn:E0; [reflexivity|lia]. Qed.
-
-Lemma first_deadline_bounds c : 0 < t_ms c ->
-  exists d1, first_deadline c = Some d1 /\ s_ms c + t_ms c <= d1 < s_ms c + t_ms c + 1000 /\
-             (t_ms c <= 5000 -> d1 = s_ms c + t_ms c).
-Proof.
-  intros Ht. unfold first_deadline. cbn [deadlines].
-  destruct (deadline_bounds c (s_ms c) Ht) as (d & -> & B & B'). exists d. auto.
-Qed.
-
-Lemma last_deadline_bounds c : 0 < t_ms c ->
-  exists d1 dl, first_deadline c = Some d1 /\ last_deadline c = Some dl /\ d1 <= dl /\
-             s_ms c + 2 * t_ms c <= dl < s_ms c + 2 * t_ms c + 2000 /\
-             (t_ms c <= 5000 -> dl = s_ms c + 2 * t_ms c).
-Proof.
-  intros Ht. unfold last_deadline, first_deadline. rewrite phases_two. cbn [deadlines].
-  destruct (deadline_bounds c (s_ms c) Ht) as (d1 & -> & B1 & B1').
-  destruct (deadline_bounds c d1 Ht) as (d2 & -> & B2 & B2').
-  exists d1, d2. repeat split; auto; try lia.
-Qed.
-
-Lemma last_deadline_none c : t_ms c <= 0 -> last_deadline c = None /\ first_deadline c = None.
-Proof.
-  intros Ht. unfold last_deadline, first_deadline. rewrite phases_two. cbn [deadlines].
-  rewrite deadline_none; auto.
-Qed.
-
-(* ---- no new request ---- *)
-Lemma no_new_request c p delta : late_accepted c p delta = false.
-Proof. destruct p; reflexivity. Qed.
-
-(* ---- idle connections ---- *)
-Lemma idle_outcome c : conn_outcome c PIdle = {| closed_at := Some (s_ms c); handler := HNone |}.
-Proof. reflexivity. Qed.
-
-(* ---- in-flight requests ---- *)
-Lemma may_complete c d : 0 < t_ms c -> 0 <= s_ms c -> d <= s_ms c + t_ms c ->
-  conn_outcome c (PHandling (Some d)) = {| closed_at := Some d; handler := HCompleted d |}.
-Proof.
-  intros Ht Hs Hd. cbn [conn_outcome handling]. rewrite closing_at_T0_true, srv_present_true.
-  destruct (d <=? s_ms c) eqn:E; [reflexivity|].
-  destruct (last_deadline_bounds c Ht) as (d1 & dl & _ & -> & _ & B & _).
-  destruct (d <=? dl) eqn:E2; [reflexivity|lia].
+  unfold deadline, ceil_threshold_ms. rewrite no_wait_true.
+  destruct (t_ms c <=? 0) eqn:E0.
+  - exists now. split; auto. split; lia.
+  - destruct (5000 <? t_ms c) eqn:E1.
+    + eexists; split; [reflexivity|]. pose proof (ceil1000_bounds (abs0 c + now + t_ms c)). split; lia.
+    + eexists; split; [reflexivity|]. split; lia.
 Qed.
 
 Lemma slack_cases c : (t_ms c <= 5000 /\ slack c = 0) \/ (5000 < t_ms c /\ slack c = 2000).
 Proof. unfold slack. destruct (t_ms c <=? 5000) eqn:E; [left|right]; split; auto; lia. Qed.
 
-Lemma deadlines_le_bound c : 0 < t_ms c -> 0 <= s_ms c ->
+Lemma deadlines_le_bound c : 0 <= s_ms c ->
   exists d1 dl, first_deadline c = Some d1 /\ last_deadline c = Some dl /\ d1 <= dl /\ dl <= bound c /\ s_ms c <= bound c /\
-                s_ms c + 2 * t_ms c <= dl.
+                s_ms c + Z.max 0 (t_ms c) <= d1 /\ s_ms c + 2 * Z.max 0 (t_ms c) <= dl /\ s_ms c <= d1.
 Proof.
-  intros Ht Hs. destruct (last_deadline_bounds c Ht) as (d1 & dl & E1 & E2 & L & B & B').
-  exists d1, dl. unfold bound. destruct (slack_cases c) as [[H1 H2]|[H1 H2]]; rewrite H2; repeat split; auto; lia.
+  intros Hs. unfold last_deadline, first_deadline. rewrite phases_two. cbn [deadlines].
+  destruct (deadline_bounds c (s_ms c)) as (d1 & -> & B1 & B1').
+  destruct (deadline_bounds c d1) as (d2 & -> & B2 & B2').
+  exists d1, d2. unfold bound. destruct (slack_cases c) as [[H1 H2]|[H1 H2]]; rewrite H2; repeat split; auto; lia.
 Qed.
 
-Lemma handling_bounded c d : 0 < t_ms c -> 0 <= s_ms c -> bounded c (handling c d).
+Lemma bound_explicit c : bound c <= s_ms c + 2 * Z.max 0 (t_ms c) + 2000 /\
+  (t_ms c <= 5000 -> bound c = s_ms c + 2 * Z.max 0 (t_ms c)).
+Proof. unfold bound. destruct (slack_cases c) as [[H1 H2]|[H1 H2]]; rewrite H2; split; lia. Qed.
+
+(* ---- no new request ---- *)
+Lemma no_new_request c p delta : late_accepted c p delta = false.
+Proof. destruct p; reflexivity. Qed.
+
+(* ---- idle connections: closed at once ---- *)
+Lemma idle_outcome c : conn_outcome c PIdle = {| closed_at := Some 0; handler := HNone |}.
+Proof. reflexivity. Qed.
+
+(* ---- in-flight requests ---- *)
+Lemma handling_completes c d : 0 <= s_ms c -> d <= s_ms c + Z.max 0 (t_ms c) ->
+  handling c (Some d) = {| closed_at := Some d; handler := HCompleted d |}.
 Proof.
-  intros Ht Hs. unfold bounded, handling. rewrite closing_at_T0_true, srv_present_true.
-  destruct (deadlines_le_bound c Ht Hs) as (d1 & dl & _ & -> & _ & Hdl & Hsb & _).
+  intros Hs Hd. cbn [handling]. rewrite closing_at_T0_true, srv_present_true.
+  destruct (d <=? s_ms c) eqn:E; [reflexivity|].
+  destruct (deadlines_le_bound c Hs) as (d1 & dl & _ & -> & _ & _ & _ & _ & B & _).
+  destruct (d <=? dl) eqn:E2; [reflexivity|lia].
+Qed.
+
+Lemma may_complete c d : 0 <= s_ms c -> d <= s_ms c + Z.max 0 (t_ms c) ->
+  conn_outcome c (PHandling (Some d)) = {| closed_at := Some d; handler := HCompleted d |} /\
+  conn_outcome c (PUpload (Some d)) = {| closed_at := Some d; handler := HCompleted d |} /\
+  conn_outcome c (PReadLater d) = {| closed_at := Some d; handler := HCompleted d |}.
+Proof.
+  intros Hs Hd. split; [apply handling_completes; auto|].
+  destruct (deadlines_le_bound c Hs) as (d1 & dl & E1 & E2 & _ & _ & _ & B1 & _ & _).
+  split.
+  - cbn [conn_outcome]. unfold blocked_on_body. rewrite closing_at_T0_true, drops_false, srv_present_true. cbn [andb].
+    destruct (d <=? s_ms c) eqn:E; [apply handling_completes; auto|].
+    rewrite E1. destruct (d <=? d1) eqn:E3; [reflexivity|lia].
+  - cbn [conn_outcome]. unfold read_later. rewrite srv_present_true.
+    destruct (d <=? s_ms c) eqn:E; [apply handling_completes; auto|].
+    rewrite E1, E2. destruct (d <=? d1) eqn:E3; [reflexivity|lia].
+Qed.
+
+Lemma handling_bounded c d : 0 <= s_ms c -> bounded c (handling c d).
+Proof.
+  intros Hs. unfold bounded, handling. rewrite closing_at_T0_true, srv_present_true.
+  destruct (deadlines_le_bound c Hs) as (d1 & dl & _ & -> & _ & Hdl & Hsb & _).
   destruct d as [d|].
   - destruct (d <=? s_ms c) eqn:E.
     + cbn [closed_at handler]. split; [exists d; split; auto|]; lia.
@@ -92,32 +90,22 @@ Proof.
   - cbn [closed_at handler]. split; [eexists; split; [reflexivity|]|]; lia.
 Qed.
 
-Lemma conn_bounded c p : 0 < t_ms c -> 0 <= s_ms c -> bounded c (conn_outcome c p).
+Lemma conn_bounded c p : 0 <= s_ms c -> bounded c (conn_outcome c p).
 Proof.
-  intros Ht Hs. destruct p as [|d|arrive].
-  - rewrite idle_outcome. unfold bounded. cbn [closed_at handler]. split; auto. exists (s_ms c). split; auto.
-    destruct (deadlines_le_bound c Ht Hs) as (_ & _ & _ & _ & _ & _ & H & _). exact H.
+  intros Hs. destruct (deadlines_le_bound c Hs) as (d1 & dl & E1 & E2 & L & Hdl & Hsb & _).
+  destruct p as [|d|d|arrive].
+  - rewrite idle_outcome. unfold bounded. cbn [closed_at handler]. split; auto. exists 0. split; auto. lia.
   - apply handling_bounded; auto.
-  - cbn [conn_outcome]. rewrite closing_at_T0_true, drops_true, srv_present_true. cbn [andb].
-    destruct (deadlines_le_bound c Ht Hs) as (d1 & dl & -> & _ & L & Hdl & _).
-    unfold bounded. cbn [closed_at handler].
-    split; [eexists; split; [reflexivity|]|]; lia.
-Qed.
-
-(* the body of a request being uploaded is lost: the handler is cancelled at the first deadline *)
-Lemma upload_cancelled c arrive : 0 < t_ms c ->
-  exists d1, first_deadline c = Some d1 /\
-  conn_outcome c (PUpload arrive) = {| closed_at := Some d1; handler := HCancelled d1 |}.
-Proof.
-  intros Ht. cbn [conn_outcome]. rewrite closing_at_T0_true, drops_true, srv_present_true. cbn [andb].
-  destruct (first_deadline_bounds c Ht) as (d1 & -> & _). exists d1. auto.
-Qed.
-
-Lemma nonpositive_timeout_stuck c : t_ms c <= 0 ->
-  conn_outcome c (PHandling None) = {| closed_at := None; handler := HStuck |}.
-Proof.
-  intros Ht. cbn [conn_outcome handling]. rewrite srv_present_true.
-  destruct (last_deadline_none c Ht) as (-> & _). reflexivity.
+  - cbn [conn_outcome]. unfold read_later. rewrite srv_present_true.
+    destruct (d <=? s_ms c) eqn:E; [apply handling_bounded; auto|].
+    rewrite E1, E2. unfold bounded.
+    destruct (d <=? d1) eqn:E3; [|destruct (d <=? dl) eqn:E4]; cbn [closed_at handler];
+      (split; [eexists; split; [reflexivity|]|]); lia.
+  - cbn [conn_outcome]. unfold blocked_on_body. rewrite closing_at_T0_true, drops_false, srv_present_true. cbn [andb].
+    rewrite E1. destruct arrive as [a|].
+    + destruct (a <=? s_ms c) eqn:E; [apply handling_bounded; auto|].
+      unfold bounded. destruct (a <=? d1) eqn:E3; cbn [closed_at handler]; (split; [eexists; split; [reflexivity|]|]); lia.
+    + unfold bounded. cbn [closed_at handler]. split; [eexists; split; [reflexivity|]|]; lia.
 Qed.
 
 (* ---- every connection is closed when Server.shutdown returns ---- *)
@@ -145,45 +133,50 @@ Proof.
   intros p Hp. apply H2. apply in_map; auto.
 Qed.
 
-Lemma shutdown_returns_bounded c ps : 0 < t_ms c -> 0 <= s_ms c ->
+Lemma shutdown_returns_bounded c ps : 0 <= s_ms c ->
   exists r, server_shutdown_returns c ps = Some r /\ r <= bound c.
 Proof.
-  intros Ht Hs. unfold server_shutdown_returns. apply all_closed_by_total.
-  - intros o Ho. apply in_map_iff in Ho as (p & <- & _). destruct (conn_bounded c p Ht Hs) as (H & _). exact H.
-  - destruct (deadlines_le_bound c Ht Hs) as (_ & _ & _ & _ & _ & _ & H & _). exact H.
+  intros Hs. unfold server_shutdown_returns. apply all_closed_by_total.
+  - intros o Ho. apply in_map_iff in Ho as (p & <- & _). destruct (conn_bounded c p Hs) as (H & _). exact H.
+  - destruct (deadlines_le_bound c Hs) as (_ & _ & _ & _ & _ & _ & H & _). exact H.
 Qed.
 
-Lemma bound_explicit c : bound c <= s_ms c + 2 * t_ms c + 2000 /\ (t_ms c <= 5000 -> bound c = s_ms c + 2 * t_ms c).
-Proof. unfold bound. destruct (slack_cases c) as [[H1 H2]|[H1 H2]]; rewrite H2; split; lia. Qed.
+(* ---------- statements in the form used by Props/C20.v ---------- *)
 
-(* witnesses *)
+Lemma cancel_bound c p : 0 <= s_ms c ->
+  bounded c (conn_outcome c p) /\
+  bound c <= s_ms c + 2 * Z.max 0 (t_ms c) + 2000 /\ (t_ms c <= 5000 -> bound c = s_ms c + 2 * Z.max 0 (t_ms c)).
+Proof. intros Hs. split; [apply conn_bounded; auto | apply bound_explicit]. Qed.
+
+Lemma returns_bounded c ps : 0 <= s_ms c ->
+  exists r, server_shutdown_returns c ps = Some r /\ r <= bound c /\
+  forall p, In p ps -> exists a, closed_at (conn_outcome c p) = Some a /\ a <= r.
+Proof.
+  intros Hs. destruct (shutdown_returns_bounded c ps Hs) as (r & E & B).
+  exists r. repeat split; auto. apply all_closed_on_return; auto.
+Qed.
+
+(* a handler that touches its body only after the first wait is failed when it does (the payload was poisoned) *)
+Lemma read_later_after_first_wait c d d1 dl : 0 <= s_ms c ->
+  first_deadline c = Some d1 -> last_deadline c = Some dl -> d1 < d <= dl ->
+  conn_outcome c (PReadLater d) = {| closed_at := Some d; handler := HCancelled d |}.
+Proof.
+  intros Hs E1 E2 Hd. destruct (deadlines_le_bound c Hs) as (d1' & dl' & E1' & E2' & _ & _ & _ & _ & _ & B).
+  rewrite E1 in E1'. injection E1' as <-.
+  cbn [conn_outcome]. unfold read_later. rewrite srv_present_true, E1, E2.
+  destruct (d <=? s_ms c) eqn:E; [lia|]. destruct (d <=? d1) eqn:E3; [lia|]. destruct (d <=? dl) eqn:E4; [reflexivity|lia].
+Qed.
+
+(* regression witnesses: the former refutations (repaired in /repo 009879e, cff98d2, 8d0202e) *)
 Definition w_cfg_slow_signal : cfg := {| t_ms := 10000; s_ms := 4000; abs0 := 1000000 |}.
 Definition w_cfg_plain : cfg := {| t_ms := 10000; s_ms := 0; abs0 := 1000000 |}.
 Definition w_cfg_zero : cfg := {| t_ms := 0; s_ms := 0; abs0 := 1000000 |}.
 
-(* ---------- statements in the form used by Props/C20.v ---------- *)
-
-Lemma idle_at_once_refuted : exists c, 0 < t_ms c /\ 0 <= s_ms c /\ closed_at (conn_outcome c PIdle) <> Some 0.
-Proof. exists w_cfg_slow_signal. repeat split; try reflexivity; try discriminate. Qed.
-
-Lemma cancel_bound c p : 0 < t_ms c -> 0 <= s_ms c ->
-  bounded c (conn_outcome c p) /\
-  bound c <= s_ms c + 2 * t_ms c + 2000 /\ (t_ms c <= 5000 -> bound c = s_ms c + 2 * t_ms c).
-Proof. intros Ht Hs. split; [apply conn_bounded; auto | apply bound_explicit]. Qed.
-
-Lemma nonpositive_timeout_refuted : exists c, t_ms c <= 0 /\ 0 <= s_ms c /\
-  conn_outcome c (PHandling None) = {| closed_at := None; handler := HStuck |} /\
-  server_shutdown_returns c [PHandling None] = None.
-Proof. exists w_cfg_zero. repeat split; try reflexivity; discriminate. Qed.
-
-Lemma upload_refuted : exists c arrive, 0 < t_ms c /\ 0 <= s_ms c /\ 0 < arrive <= s_ms c + t_ms c /\
-  exists a, handler (conn_outcome c (PUpload (Some arrive))) = HCancelled a.
-Proof. exists w_cfg_plain, 125. repeat split; try reflexivity; try discriminate. eexists. reflexivity. Qed.
-
-Lemma returns_bounded c ps : 0 < t_ms c -> 0 <= s_ms c ->
-  exists r, server_shutdown_returns c ps = Some r /\ r <= bound c /\
-  forall p, In p ps -> exists a, closed_at (conn_outcome c p) = Some a /\ a <= r.
-Proof.
-  intros Ht Hs. destruct (shutdown_returns_bounded c ps Ht Hs) as (r & E & B).
-  exists r. repeat split; auto. apply all_closed_on_return; auto.
-Qed.
+Lemma regression_idle : conn_outcome w_cfg_slow_signal PIdle = {| closed_at := Some 0; handler := HNone |}.
+Proof. reflexivity. Qed.
+Lemma regression_upload : conn_outcome w_cfg_plain (PUpload (Some 125)) = {| closed_at := Some 125; handler := HCompleted 125 |}.
+Proof. vm_compute. reflexivity. Qed.
+Lemma regression_zero_timeout :
+  conn_outcome w_cfg_zero (PHandling None) = {| closed_at := Some 0; handler := HCancelled 0 |} /\
+  server_shutdown_returns w_cfg_zero [PHandling None] = Some 0.
+Proof. vm_compute. split; reflexivity. Qed.
